@@ -160,6 +160,8 @@ class Ctx:
         self.extractors = {}         # input name -> callable(model) -> python value  (for replay)
         self.used_lemmas = set()     # names of proved lemmas whose instances were used as hypotheses
         self.cnt_mono = False        # add cnt_mono instances over pairs of instantiation terms
+        self.used_expr_contracts = set()
+        self.term_maps = []          # unary z3 functions applied to the instantiation terms (e.g. a sort permutation)
         self.len_vars = []           # length variables of list / table inputs (for small counter-models)
         self.ghost = {}              # ghost values exposed to the contract (e.g. selected rows of a mask filter)
         self.fn_stack = []
@@ -216,6 +218,11 @@ class Ctx:
             t = lift(t)
             if not any(t.eq(u) for u in terms):
                 terms.append(t)
+        for f in self.term_maps:
+            for t in list(terms):
+                u = f(t)
+                if not any(u.eq(w) for w in terms):
+                    terms.append(u)
         # close under +-1 once (unfoldings at k-1, k, k+1 are what inductions over prefixes need)
         base = list(terms)
         for t in base:
@@ -514,6 +521,19 @@ class Interp:
         raise ContinueSig()
 
     def stmt_Assign(self, s, fr):
+        con = getattr(fr, 'contract', None)
+        if con is not None and con.expr_contracts and len(s.targets) == 1 and isinstance(s.targets[0], ast.Name) \
+                and s.targets[0].id in con.expr_contracts:
+            # assumed contract on one expression, pinned by its exact AST: if the code's expression differs from the
+            # pinned text the assumption does not apply any more (fail closed -> UNDECIDED, the bounded run decides)
+            ec = con.expr_contracts[s.targets[0].id]
+            want = ast.dump(ast.parse(ec['source'].strip(), mode='eval').body)
+            if ast.dump(s.value) != want:
+                raise Unsupported(f'pinned expression for `{s.targets[0].id}` changed: the assumed contract '
+                                  f'"{ec["doc"]}" no longer applies')
+            self.ctx.used_expr_contracts.add(f'{fr.fi.qualname}: {s.targets[0].id} = {" ".join(ec["source"].split())}  ==>  {ec["doc"]}')
+            fr.env[s.targets[0].id] = ec['value'](self, fr)
+            return
         v = self.eval(s.value, fr)
         for t in s.targets:
             self.assign(t, v, fr)
@@ -665,9 +685,21 @@ class Interp:
         which = ctx.choose(f'loop{k}', ['body', 'exit'])
         # havoc everything the body may modify
         mods = spec.get('modifies') or sorted(_modified_names(s.body) | ({t.id for t in ast.walk(s.target) if isinstance(t, ast.Name)} if is_for else set()))
+        mcols = spec.get('modifies_cols') or {}
+        col_snap = {}
         for name in mods:
             if name in fr.env:
-                fr.env[name] = self.havoc_value(fr.env[name], name)
+                if name in mcols:
+                    # only the listed columns of this table are havocked; that the body writes no other column is
+                    # checked after the body (column objects are replaced on every write)
+                    tab = fr.env[name]
+                    for cn in mcols[name]:
+                        c = tab.cols[cn]
+                        tab.cols[cn] = spec['col_models'][cn](tab.n) if 'col_models' in spec and cn in spec['col_models'] \
+                            else _fresh_like(tab.n, cn, c)
+                    col_snap[name] = {cn: c for cn, c in tab.cols.items() if cn not in mcols[name]}
+                else:
+                    fr.env[name] = self.havoc_value(fr.env[name], name)
         i = fresh_int('i') if is_for else None
         if is_for:
             ctx.assume(z3.And(i >= 0, i <= n))
@@ -682,12 +714,19 @@ class Interp:
                 c = self.eval(s.test, fr)
                 ctx.assume(to_bool_term(c) if not isinstance(c, bool) else z3.BoolVal(c))
                 var0 = spec['variant'](EnvView(fr.env)) if 'variant' in spec else None
+            if 'assume_in_body' in spec:
+                ctx.assume(list(spec['assume_in_body'](EnvView(fr.env), i)))
             try:
                 self.exec_block(s.body, fr)
             except ContinueSig:
                 pass
             except BreakSig:
                 raise Unsupported('break inside an invariant-cut loop')
+            for name, snap in col_snap.items():
+                tab = fr.env.get(name)
+                for cn, c in snap.items():
+                    if tab is None or tab.cols.get(cn) is not c:
+                        raise Unsupported(f'loop #{k} writes column {cn} of {name}, which its frame does not list')
             nxt = (i + 1) if is_for else None
             for cname, f in (inv(EnvView(fr.env), nxt) if is_for else inv(EnvView(fr.env))).items():
                 ctx.oblige(f'inv.keep#{k}.{cname}', f, extra_terms=[nxt] if is_for else [])
@@ -1382,6 +1421,11 @@ class Interp:
         if tag not in known:
             raise Unsupported(f'isinstance on value with tag {tag}')
         return res
+
+
+def _fresh_like(n, name, c):
+    from .pandas_model import fresh_column
+    return fresh_column(n, name, c.dtype if c.dtype != 'unset' else 'unset', getattr(c, 'ty', None), with_defd=True)
 
 
 _FLIP = {'Eq': 'Eq', 'NotEq': 'NotEq', 'Lt': 'Gt', 'LtE': 'GtE', 'Gt': 'Lt', 'GtE': 'LtE'}
